@@ -29,6 +29,12 @@ SumSeq(s) == IF s = <<>> THEN 0 ELSE Head(s) + SumSeq(Tail(s))
 NewJumper(n) == [card |-> <<>>, best |-> 0, bidx |-> 0, elim |-> FALSE, dism |-> FALSE,
                  lim |-> 3, cf |-> 0, p |-> n, pub |-> 0]
 
+\* A jumper registered with order = 'DQ' / 'DNS' carries the extra field dq (ordinary jumpers do not have the field, so
+\* snapshots of competitions without such entries are unchanged).  The code refuses their trials while the competition
+\* is running and reports the order as their place; they are never eliminated, so they stay in `remaining` for ever.
+IsDQ(jr) == "dq" \in DOMAIN jr /\ jr.dq
+NewDQ(n) == NewJumper(n) @@ [dq |-> TRUE]
+
 \* `bar` is the public bar_height attribute (0 before the first height)
 EmptyHJ == [state |-> "scheduled", heights |-> <<>>, bar |-> 0, order |-> <<>>, ranked |-> <<>>,
             j |-> <<>>, log |-> <<>>]
@@ -92,7 +98,7 @@ RankJ(hj) ==
         ranked2 == TLCEval([i \in 1..Len(hj.ranked) |-> CHOOSE b \in DOMAIN J : newpos[b] = i])
         place == TLCEval([b \in DOMAIN J |-> 1 + Cardinality({c \in DOMAIN J : KeyLT(K[c], K[b])})])
     IN [hj EXCEPT !.ranked = ranked2, !.j = TLCEval([b \in DOMAIN J |-> [J[b] EXCEPT !.p = place[b],
-                                                          !.pub = IF J[b].bidx = 0 THEN 0 ELSE place[b]]])]
+                                                          !.pub = IF IsDQ(J[b]) THEN -1 ELSE IF J[b].bidx = 0 THEN 0 ELSE place[b]]])]
 
 Reinstate(jr) == [jr EXCEPT !.elim = FALSE, !.lim = 1, !.cf = 0]
 
@@ -122,13 +128,15 @@ Rank(hj0) ==
 (* Public calls.  Outcomes: "ok", "rule" (RuleViolation), "key" (KeyError  *)
 (* for an unknown bib), "assert" (AssertionError: trial with no height).   *)
 (***************************************************************************)
-AddJumper(hj, b) ==
+AddJumperQ(hj, b, dq) ==
     IF hj.state # "scheduled" THEN <<"rule", hj>>
     ELSE IF b \in DOMAIN hj.j THEN <<"rule", hj>>
     ELSE <<"ok", [hj EXCEPT !.j = TLCEval([c \in DOMAIN hj.j \cup {b} |->
-                                      IF c = b THEN NewJumper(Len(hj.order) + 1) ELSE hj.j[c]]),
+                                      IF c = b THEN (IF dq THEN [NewDQ(Len(hj.order) + 1) EXCEPT !.pub = -1] ELSE NewJumper(Len(hj.order) + 1))
+                                      ELSE hj.j[c]]),
                             !.order = Append(@, b), !.ranked = Append(@, b),
-                            !.log = Append(@, Entry("add", b, 0))]>>
+                            !.log = Append(@, Entry(IF dq THEN "addq" ELSE "add", b, 0))]>>
+AddJumper(hj, b) == AddJumperQ(hj, b, FALSE)
 
 \* set_bar_height (after "fix: test the bar before starting the competition"): the state only
 \* becomes 'started' when the height is accepted.
@@ -142,7 +150,7 @@ SetBar(hj, h) ==
                             !.log = Append(@, Entry("bar", "", h))]>>
 
 CheckStarted(hj, b) ==   \* TRUE = may proceed
-    IF hj.state \in {"started", "jumpoff"} THEN TRUE
+    IF hj.state \in {"started", "jumpoff"} THEN ~IsDQ(hj.j[b])
     ELSE IF hj.state \in {"won", "drawn"} THEN hj.j[b].p = 1
     ELSE FALSE
 
@@ -157,6 +165,7 @@ Trial(hj, kind, b) ==
 
 Do(hj, c) ==
     CASE c.op = "add" -> AddJumper(hj, c.b)
+      [] c.op = "addq" -> AddJumperQ(hj, c.b, TRUE)
       [] c.op = "bar" -> SetBar(hj, c.h)
       [] OTHER        -> Trial(hj, c.op, c.b)
 
@@ -224,7 +233,9 @@ OutBy(card, n) == RetiredC(Prefix(card, n)) \/ Consec(Prefix(card, n)) >= 3
 Cards(hj) == [b \in DOMAIN hj.j |-> hj.j[b].card]
 NH(hj) == Len(hj.heights)
 
-AllOutBy(hj, n) == DOMAIN hj.j # {} /\ \A b \in DOMAIN hj.j : OutBy(hj.j[b].card, n)
+\* the field: DQ / DNS entries take no part (rule level: the competition is the one among the others)
+Field(hj) == {b \in DOMAIN hj.j : ~IsDQ(hj.j[b])}
+AllOutBy(hj, n) == Field(hj) # {} /\ \A b \in Field(hj) : OutBy(hj.j[b].card, n)
 \* number of regular heights: the first column by which everybody is out (0 = still regular)
 NRegR(hj) == IF \E n \in 1..NH(hj) : AllOutBy(hj, n)
              THEN CHOOSE n \in 1..NH(hj) : AllOutBy(hj, n) /\ \A m \in 1..(n - 1) : ~AllOutBy(hj, m)
@@ -294,11 +305,12 @@ RuleCtx(hj) ==
         ill |-> n > 0 /\ IllFormedJO(hj, n)]
 
 RuleAllowsC(hj, ctx, c) ==
-    CASE c.op = "add" -> NH(hj) = 0 /\ c.b \notin DOMAIN hj.j
+    CASE c.op \in {"add", "addq"} -> NH(hj) = 0 /\ c.b \notin DOMAIN hj.j
       [] c.op = "bar" -> \/ ctx.ph \in {"scheduled", "regular"} /\ c.h > CurH(hj)
                          \/ ctx.ph = "jumpoff"
       [] OTHER ->
            /\ c.b \in DOMAIN hj.j
+           /\ ~IsDQ(hj.j[c.b])
            /\ LET card == hj.j[c.b].card
                   cur == MarksAt(card, NH(hj))
               IN \/ /\ ctx.ph = "regular"
@@ -314,7 +326,7 @@ RuleAllows(hj, c) == RuleAllowsC(hj, RuleCtx(hj), c)
 \* acceptance is "don't care" (R4) in these regions
 LenientC(hj, ctx, c) ==
     \/ ctx.ph = "nomark"
-    \/ c.op \notin {"add", "bar"} /\ c.b \notin DOMAIN hj.j
+    \/ c.op \notin {"add", "addq", "bar"} /\ c.b \notin DOMAIN hj.j
     \/ ctx.ill
 Lenient(hj, c) == LenientC(hj, RuleCtx(hj), c)
 
@@ -338,8 +350,9 @@ MaxCleared(hj, card) ==
 BestIsMaxCleared(hj) == \A b \in DOMAIN hj.j : hj.j[b].best = MaxCleared(hj, hj.j[b].card)
 
 \* standard competition ranking: place = 1 + number of athletes placed strictly better
-StdRanking(P) == \A b \in DOMAIN P : P[b] # 0 =>
-                     P[b] = 1 + Cardinality({c \in DOMAIN P : P[c] # 0 /\ P[c] < P[b]})
+\* (a place <= 0 is no place: 0 = no clearance, -1 = DQ / DNS)
+StdRanking(P) == \A b \in DOMAIN P : P[b] > 0 =>
+                     P[b] = 1 + Cardinality({c \in DOMAIN P : P[c] > 0 /\ P[c] < P[b]})
 
 Terminal(hj) == hj.state \in {"finished", "won", "drawn"}
 
@@ -353,10 +366,10 @@ PlacesFail(hj) ==
         ph == RPhase(hj)
         S == IF nr = 0 THEN {} ELSE Active(hj, nr, NH(hj))
     IN  (IF StdRanking(P) THEN {} ELSE {"not_standard_ranking"})
-        \cup (IF \A b \in DOMAIN P : (P[b] = 0) = (CB[b] = 0 /\ ~ClearedC(hj.j[b].card)) THEN {} ELSE {"unplaced_iff_no_clearance"})
+        \cup (IF \A b \in DOMAIN P : IF IsDQ(hj.j[b]) THEN P[b] = -1 ELSE (P[b] = 0) = (CB[b] = 0 /\ ~ClearedC(hj.j[b].card)) THEN {} ELSE {"unplaced_iff_no_clearance"})
         \cup (IF hj.state = "won" /\ Cardinality(T) # 1 THEN {"won_without_single_leader"} ELSE {})
         \cup (IF hj.state = "finished" /\ Cardinality({b \in DOMAIN P : P[b] = 1}) > 1 THEN {"tie_for_first_left_standing"} ELSE {})
-        \cup (IF Cardinality(T) <= 1 /\ P # CB THEN {"places_differ_from_countback"} ELSE {})
+        \cup (IF Cardinality(T) <= 1 /\ \E b \in Field(hj) : P[b] # CB[b] THEN {"places_differ_from_countback"} ELSE {})
         \* drawn: the participants who were still in when the last of them retired share first place,
         \* members of the tie beaten earlier in the jump-off stay ahead of everybody who was not tied
         \cup (IF Cardinality(T) > 1 /\ hj.state = "drawn" THEN
@@ -365,13 +378,13 @@ PlacesFail(hj) ==
                      D == IF kd = nr THEN T ELSE Active(hj, nr, kd - 1)
                  IN (IF \A b \in D : P[b] = 1 THEN {} ELSE {"drawn_participants_do_not_share_first"})
                     \cup (IF \A b \in T : P[b] >= 1 /\ P[b] <= Cardinality(T) THEN {} ELSE {"jumpoff_member_outside_top"})
-                    \cup (IF \A b \in T : \A c \in DOMAIN P \ T : P[c] = 0 \/ P[b] < P[c] THEN {} ELSE {"jumpoff_member_behind_untied"})
+                    \cup (IF \A b \in T : \A c \in DOMAIN P \ T : P[c] <= 0 \/ P[b] < P[c] THEN {} ELSE {"jumpoff_member_behind_untied"})
                     \cup (IF \A c \in DOMAIN P \ T : P[c] = CB[c] THEN {} ELSE {"untied_place_changed"})
               ELSE {})
         \cup (IF Cardinality(T) > 1 /\ hj.state = "finished" THEN
                  (IF Cardinality(S) = 1 /\ \A s \in S : P[s] = 1 THEN {} ELSE {"jumpoff_survivor_not_first"})
                  \cup (IF \A b \in T : P[b] >= 1 /\ P[b] <= Cardinality(T) THEN {} ELSE {"jumpoff_member_outside_top"})
-                 \cup (IF \A b \in T : \A c \in DOMAIN P \ T : P[c] = 0 \/ P[b] < P[c] THEN {} ELSE {"jumpoff_member_behind_untied"})
+                 \cup (IF \A b \in T : \A c \in DOMAIN P \ T : P[c] <= 0 \/ P[b] < P[c] THEN {} ELSE {"jumpoff_member_behind_untied"})
                  \cup (IF \A c \in DOMAIN P \ T : P[c] = CB[c] THEN {} ELSE {"untied_place_changed"})
               ELSE {})
 
